@@ -55,7 +55,7 @@ def single_ok_payload(qual):
         return None
     res = None
     fns = prog.facts.fns.get(qual) or []
-    if len(fns) == 1 and not any("&mut" in x for x in fns[0].get("sig", {}).get("inputs", [])):
+    if len(fns) == 1 and (not any("&mut" in x for x in fns[0].get("sig", {}).get("inputs", [])) or not prog.known_name(fns[0])):
         an = prog.analysis(fns[0])
         if an is not None and an.ret_leaves():
             oks = []
@@ -316,6 +316,32 @@ def failure_causes(an):
     return out
 
 
+def helper_causes(qual, nargs, depth=0):
+    """failure causes of a private helper the rules do not name, expressed in the caller's terms (its parameters replaced by the
+    normal forms of the actual arguments); None when the function is named, unknown or recursive"""
+    prog = _PROG[0]
+    if prog is None or depth > 3:
+        return None
+    fns = prog.facts.fns.get(qual) or []
+    if len(fns) != 1 or prog.known_name(fns[0]):
+        return None
+    an = prog.analysis(fns[0])
+    if an is None:
+        return None
+    out = []
+    for c, t, st in failure_causes(an):
+        out.append(_subst_params(c, nargs))
+    return tuple(out)
+
+
+def _subst_params(n, nargs):
+    if isinstance(n, tuple):
+        if len(n) == 2 and n[0] == "p" and isinstance(n[1], int) and 1 <= n[1] <= len(nargs):
+            return nargs[n[1] - 1]
+        return tuple(_subst_params(x, nargs) for x in n)
+    return n
+
+
 def _is_filebuf(n):
     return n == ("fld", ("p", 1), "data") or n == ("p", 2) or n == ("p", 1)
 
@@ -356,6 +382,9 @@ def classify_failure(an, t, st):
                 r = norm(args[1])
                 if r[0] == "agg" and len(r[3]) == 2:
                     return ("read", r[3][0], r[3][1])
+            sub = helper_causes(f, tuple(norm(a) for a in args))
+            if sub is not None:
+                return ("via", f, sub)
             return ("callee", f, tuple(norm(a) for a in args))
         return ("propagated", norm(src))
     if inner.op == "agg":
